@@ -1443,6 +1443,29 @@ func reachOnSomePath(fn *ssa.Function, target ssa.Instruction, assume func(v ssa
 // reachOnSomePathAvoiding: as reachOnSomePath, and a path ends where it executes an instruction
 // accepted by barrier before it reaches target.
 func reachOnSomePathAvoiding(fn *ssa.Function, target ssa.Instruction, assume func(v ssa.Value) Tri, barrier func(ssa.Instruction) bool) bool {
+	return explorePaths(fn, target, assume, barrier, nil)
+}
+
+// pathLeavesAt: the values a merged value v can stand for when control reaches instruction at,
+// path by path: phis are resolved by the edge each path came in by, and branches on booleans that a
+// path has made constant (a flag such as `copied`) follow only the feasible side. complete is false
+// when the exploration ran out of budget (the answer is then not to be relied on).
+func pathLeavesAt(fn *ssa.Function, at ssa.Instruction, v ssa.Value) (leaves []ssa.Value, complete bool) {
+	seen := map[ssa.Value]bool{}
+	over := explorePaths(fn, at, func(ssa.Value) Tri { return U }, func(ssa.Instruction) bool { return false },
+		func(resolve func(ssa.Value) ssa.Value) {
+			if l := resolve(v); !seen[l] {
+				seen[l] = true
+				leaves = append(leaves, l)
+			}
+		})
+	return leaves, !over
+}
+
+// explorePaths walks the feasible paths from fn's entry. Without onHit it stops at the first path
+// that reaches target and reports true. With onHit every path that reaches target calls it with the
+// path's resolution of merged values and ends there; the result is then true only if the budget ran out.
+func explorePaths(fn *ssa.Function, target ssa.Instruction, assume func(v ssa.Value) Tri, barrier func(ssa.Instruction) bool, onHit func(resolve func(ssa.Value) ssa.Value)) bool {
 	type pathState struct {
 		decided map[string]Tri
 		phi     map[*ssa.Phi]ssa.Value
@@ -1485,6 +1508,31 @@ func reachOnSomePathAvoiding(fn *ssa.Function, target ssa.Instruction, assume fu
 			}
 			if e, ok := ps.phi[x]; ok {
 				return eval(e, ps, d+1)
+			}
+		case *ssa.BinOp:
+			// a nil test of a merged value the path has made definite: `err != nil` after the value
+			// came in as the constant nil, or as an error that was just constructed
+			if r := assume(v); r != U {
+				return r
+			}
+			if opnd, nilWhenTrue, ok := nilTest(v); ok {
+				for i := 0; i < 16; i++ {
+					ph, isPhi := opnd.(*ssa.Phi)
+					if !isPhi {
+						break
+					}
+					e, has := ps.phi[ph]
+					if !has {
+						break
+					}
+					opnd = e
+				}
+				if k, isK := opnd.(*ssa.Const); isK && k.Value == nil {
+					return tri(nilWhenTrue)
+				}
+				if definitelyNonNil(opnd, 0) {
+					return tri(!nilWhenTrue)
+				}
 			}
 		}
 		if r := assume(v); r != U {
@@ -1530,6 +1578,14 @@ func reachOnSomePathAvoiding(fn *ssa.Function, target ssa.Instruction, assume fu
 					if p != pred {
 						continue
 					}
+					// all phis of a block are assigned at once from the values before the entry: an operand
+					// that is itself a phi (of another block, or of this block on a back edge - the loop
+					// variable carried round unchanged) stands for what it resolved to so far
+					type asg struct {
+						phi *ssa.Phi
+						v   ssa.Value
+					}
+					var asgs []asg
 					for _, in := range b.Instrs {
 						phi, ok := in.(*ssa.Phi)
 						if !ok {
@@ -1537,11 +1593,14 @@ func reachOnSomePathAvoiding(fn *ssa.Function, target ssa.Instruction, assume fu
 						}
 						e := phi.Edges[i]
 						if pe, ok := e.(*ssa.Phi); ok {
-							if pv, ok := ps.phi[pe]; ok && pe.Block() != b {
+							if pv, ok := ps.phi[pe]; ok {
 								e = pv
 							}
 						}
-						ps.phi[phi] = e
+						asgs = append(asgs, asg{phi, e})
+					}
+					for _, x := range asgs {
+						ps.phi[x.phi] = x.v
 					}
 					break
 				}
@@ -1555,6 +1614,23 @@ func reachOnSomePathAvoiding(fn *ssa.Function, target ssa.Instruction, assume fu
 				dead := false
 				for _, in := range b.Instrs {
 					if in == target {
+						if onHit != nil {
+							onHit(func(v ssa.Value) ssa.Value {
+								for i := 0; i < 32; i++ {
+									ph, ok := v.(*ssa.Phi)
+									if !ok {
+										break
+									}
+									e, ok := ps.phi[ph]
+									if !ok {
+										break
+									}
+									v = e
+								}
+								return v
+							})
+							return
+						}
 						found = true
 						return
 					}
@@ -1889,4 +1965,114 @@ func sameValue(x, y ssa.Value) bool {
 		return false
 	}
 	return tx.String() == ty.String()
+}
+
+// inlinePartOf: fn is host, or a function literal nested in host that is only ever called on the
+// spot (or deferred) by the function it is written in - never started as a goroutine, stored or
+// handed to someone else. Such a literal runs on host's goroutine as part of host.
+func inlinePartOf(fn, host *ssa.Function) bool {
+	for fn != nil && fn != host {
+		par := fn.Parent()
+		if par == nil {
+			return false
+		}
+		used := false
+		for _, b := range par.Blocks {
+			for _, in := range b.Instrs {
+				mc, ok := in.(*ssa.MakeClosure)
+				if !ok || mc.Fn != ssa.Value(fn) {
+					continue
+				}
+				used = true
+				for _, r := range *mc.Referrers() {
+					switch x := r.(type) {
+					case *ssa.Call:
+						if x.Call.Value != ssa.Value(mc) {
+							return false
+						}
+					case *ssa.Defer:
+						if x.Call.Value != ssa.Value(mc) {
+							return false
+						}
+					case *ssa.DebugRef:
+					default:
+						return false
+					}
+				}
+			}
+		}
+		if !used {
+			// a literal without free variables is called as a plain function value
+			for _, b := range par.Blocks {
+				for _, in := range b.Instrs {
+					if cc := callCommon(in); cc != nil && cc.Value == ssa.Value(fn) {
+						if _, isGo := in.(*ssa.Go); isGo {
+							return false
+						}
+						used = true
+					}
+				}
+			}
+			if !used {
+				return false
+			}
+		}
+		fn = par
+	}
+	return fn == host
+}
+
+// definitelyNonNil: v cannot be nil: the address of something, a freshly made value, a non-interface
+// value boxed into an interface, or the result of a constructor that only ever returns such values
+// (fmt.Errorf, errors.New, a module function all of whose returns qualify).
+func definitelyNonNil(v ssa.Value, depth int) bool {
+	if depth > 3 {
+		return false
+	}
+	switch x := v.(type) {
+	case *ssa.Alloc, *ssa.MakeMap, *ssa.MakeSlice, *ssa.MakeChan, *ssa.MakeClosure, *ssa.FieldAddr, *ssa.IndexAddr, *ssa.Function:
+		return true
+	case *ssa.MakeInterface:
+		if _, isIface := x.X.Type().Underlying().(*types.Interface); !isIface {
+			if _, isPtr := x.X.Type().Underlying().(*types.Pointer); isPtr {
+				return definitelyNonNil(x.X, depth+1)
+			}
+			return true
+		}
+		return definitelyNonNil(x.X, depth+1)
+	case *ssa.ChangeInterface:
+		return definitelyNonNil(x.X, depth+1)
+	case *ssa.Extract:
+		if c, ok := x.Tuple.(*ssa.Call); ok {
+			return callResultNonNil(c, x.Index, depth)
+		}
+	case *ssa.Call:
+		return callResultNonNil(x, 0, depth)
+	}
+	return false
+}
+
+func callResultNonNil(c *ssa.Call, idx int, depth int) bool {
+	switch calleeFull(&c.Call) {
+	case "fmt.Errorf", "errors.New":
+		return true
+	}
+	cal := c.Call.StaticCallee()
+	if cal == nil || cal.Blocks == nil {
+		return false
+	}
+	n := 0
+	for _, b := range cal.Blocks {
+		ret, ok := b.Instrs[len(b.Instrs)-1].(*ssa.Return)
+		if !ok || idx >= len(ret.Results) {
+			continue
+		}
+		n++
+		for _, l := range phiLeaves(ret.Results[idx]) {
+			if !definitelyNonNil(l, depth+1) {
+				return false
+			}
+		}
+	}
+	return n > 0
 }
